@@ -542,8 +542,12 @@ class Worker:
         preprocess = getattr(self, 'preprocess', None)
 
         while True:
-            if buffer.full():
-                with buffer._not_full:
+            with buffer._not_full:
+                # Check and wait under the lock: a `get` by the batch consumer between an
+                # unlocked `full()` test and the `wait()` would send its notification
+                # before anyone waits; once the consumer has drained the buffer, both sides
+                # would wait for each other forever.
+                while buffer.full():
                     buffer._not_full.wait()
 
             # Multiple workers in separate processes may be competing
